@@ -113,6 +113,11 @@ impl<CS: CLCiphersuite> Signature<CL03<CS>> {
             return false;
         }
 
+        // v is an element of Z_N^*: only its reduced representative is a signature component
+        if sign.v <= 0 || sign.v >= pk.N {
+            return false;
+        }
+
         if lhs == rhs {
             return true;
         }
@@ -151,6 +156,11 @@ impl<CS: CLCiphersuite> Signature<CL03<CS>> {
         }
 
         if sign.e <= Integer::from(2).pow(CS::le - 1) || sign.e >= Integer::from(2).pow(CS::le) {
+            return false;
+        }
+
+        // v is an element of Z_N^*: only its reduced representative is a signature component
+        if sign.v <= 0 || sign.v >= pk.N {
             return false;
         }
 
